@@ -28,7 +28,7 @@
 //!   isolation  an operation on one environment changed a clone/the original
 //!   threads    a concurrent render differs from the single threaded fresh-environment result
 //!
-//! usage: c15 gen <quick|thorough> | c15 one <case tokens…>
+//! usage: c15 gen <quick|thorough> [count] | c15 one <case tokens…> [--once] | c15 file <corpus file>
 use minijinja::value::Value;
 use minijinja::{context, Environment, Error, ErrorKind};
 use mjh::*;
@@ -85,6 +85,7 @@ const GLOBAL_NAMES: [&str; 2] = ["g", "range"];
 static LOGGING: AtomicBool = AtomicBool::new(true);
 static REAL_LOG: Mutex<Vec<usize>> = Mutex::new(Vec::new());
 static FRESH_LOG: Mutex<Vec<usize>> = Mutex::new(Vec::new());
+static JUNK_SEEN: Mutex<BTreeMap<usize, String>> = Mutex::new(BTreeMap::new());
 
 fn loader_fn(table: usize, real: bool) -> impl Fn(&str) -> Result<Option<String>, Error> + Send + Sync + 'static {
     move |name: &str| {
@@ -766,7 +767,21 @@ fn run_history(ops: &[Op], hseed: u64) -> (String, String, String, String) {
                 note = if got.1.starts_with("ok:") { "ok".to_string() } else { got.1.splitn(3, ':').take(2).collect::<Vec<_>>().join(":") };
                 got.0
             }
-            Op::Junk { e, k } => junk(&envs[*e].env, *k),
+            Op::Junk { e, k } => {
+                // the outcome of a failing compile/render is itself history independent
+                let res = junk(&envs[*e].env, *k);
+                let mut seen = JUNK_SEEN.lock().unwrap();
+                match seen.get(k) {
+                    Some(first) if *first != res => {
+                        fails.push(format!("FAILrepeat{{junk {} gave {} earlier and {} now}}", k, first, res));
+                    }
+                    Some(_) => {}
+                    None => {
+                        seen.insert(*k, res);
+                    }
+                }
+                "jk".into()
+            }
             Op::Threads { e, k } => {
                 let (f, newc) = threads_phase(&envs[*e], *k, &mut frng);
                 if let Some(f) = f {
@@ -851,6 +866,19 @@ fn main() {
                 if seed == 0 && args.iter().any(|a| a == "--once") {
                     break;
                 }
+            }
+        }
+        Some("file") => {
+            // one history per line (corpus of minimised past failures)
+            let text = std::fs::read_to_string(&args[2]).unwrap_or_default();
+            for (i, line) in text.lines().enumerate() {
+                let line = line.trim();
+                if line.is_empty() || line.starts_with('#') {
+                    continue;
+                }
+                let ops: Vec<Op> = line.split_whitespace().filter_map(parse_op).collect();
+                let (case, imp, orc, notes) = run_history(&ops, i as u64);
+                writeln!(out, "{}\t{}\t{}\t{}", case, imp, orc, notes).unwrap();
             }
         }
         _ => {
